@@ -682,7 +682,11 @@ func (h *H) Trigger(height, view uint64) bool {
 
 // PlayRound sends the traffic of the other members that lets the node commit its current height in its current view
 // (view 0: PREPREPARE from the leader unless the node leads; then PREPAREs and COMMITs). Returns the block used.
-func (h *H) PlayRound() *fakes.Block {
+func (h *H) PlayRound() *fakes.Block { return h.PlayRoundOrder("ppc") }
+
+// PlayRoundOrder: order is a permutation of p (PREPREPARE), r (PREPAREs), c (COMMITs), e.g. "pcr" delivers the COMMITs before
+// the PREPAREs; a trailing 'd' re-sends everything once more (duplicates).
+func (h *H) PlayRoundOrder(order string) *fakes.Block {
 	height, view := h.HV()
 	if height == 0 {
 		return nil
@@ -701,6 +705,7 @@ func (h *H) PlayRound() *fakes.Block {
 		prevID = ce.Block.ID
 	}
 	h.mu.Unlock()
+	var ppSpec *sim.MsgSpec
 	if pp, ok := h.Sto.GetPreprepareMessage(primitives.BlockHeight(height), primitives.View(view)); ok {
 		hash = pp.Content().SignedHeader().BlockHash()
 		blk = fakes.AsBlock(pp.Block())
@@ -710,23 +715,59 @@ func (h *H) PlayRound() *fakes.Block {
 		blk = NewBlock(height, prevID, fmt.Sprintf("r%d", time.Now().UnixNano()%100000))
 		hash = blk.Hash()
 		r := h.refSpec(sim.TPP, height, 0, hash)
-		h.Send(&sim.MsgSpec{Union: sim.UPP, Ref: r, Sender: h.signedRef(leader, r), Block: blk})
+		ppSpec = &sim.MsgSpec{Union: sim.UPP, Ref: r, Sender: h.signedRef(leader, r), Block: blk}
 	} else {
 		return nil
 	}
-	for _, o := range h.Others() {
-		if o == leader {
+	seed := ref.SeedBytes(h.SeedAt(height))
+	send := func(what byte) {
+		switch what {
+		case 'p':
+			if ppSpec != nil {
+				h.Send(ppSpec)
+			}
+		case 'r':
+			for _, o := range h.Others() {
+				if o == leader {
+					continue
+				}
+				r := h.refSpec(sim.TP, height, view, hash)
+				h.Send(&sim.MsgSpec{Union: sim.UP, Ref: r, Sender: h.signedRef(o, r)})
+			}
+		case 'c':
+			for _, o := range h.Others() {
+				r := h.refSpec(sim.TC, height, view, hash)
+				h.Send(&sim.MsgSpec{Union: sim.UC, Ref: r, Sender: h.signedRef(o, r), Share: h.Reg.ShareAs(h.IDs[o], primitives.BlockHeight(height), seed)})
+			}
+		}
+	}
+	if order == "" {
+		order = "prc"
+	}
+	for i := 0; i < len(order); i++ {
+		if order[i] == 'd' {
+			for j := 0; j < i; j++ {
+				send(order[j])
+			}
 			continue
 		}
-		r := h.refSpec(sim.TP, height, view, hash)
-		h.Send(&sim.MsgSpec{Union: sim.UP, Ref: r, Sender: h.signedRef(o, r)})
-	}
-	seed := ref.SeedBytes(h.SeedAt(height))
-	for _, o := range h.Others() {
-		r := h.refSpec(sim.TC, height, view, hash)
-		h.Send(&sim.MsgSpec{Union: sim.UC, Ref: r, Sender: h.signedRef(o, r), Share: h.Reg.ShareAs(h.IDs[o], primitives.BlockHeight(height), seed)})
+		send(order[i])
 	}
 	return blk
+}
+
+// Flood hands n cheap, valid-looking but irrelevant messages (PREPAREs of a past view from another member) to the node.
+func (h *H) Flood(n int) bool {
+	height, _ := h.HV()
+	o := h.Others()[0]
+	r := h.refSpec(sim.TP, height, 0, []byte("flood"))
+	raw := (&sim.MsgSpec{Union: sim.UP, Ref: r, Sender: h.signedRef(o, r)}).Build()
+	for i := 0; i < n; i++ {
+		if !h.SendRaw(raw) {
+			return false
+		}
+	}
+	return true
 }
 
 // Shutdown cancels the run context and waits (bounded) for WaitUntilShutdown. ok=false: it did not return.
